@@ -161,11 +161,125 @@ def make_task(ex, coro: V, name='task') -> V:
     return V(t.ty, t.term, py=('task', info))
 
 
+def copy_context(ex, n, awaited, recv=None):
+    """A7: contextvars.copy_context() is a snapshot of the current task's context variables."""
+    for gname, (key, ty, dflt) in ex.spec.ctxvars.items():
+        ex.ctxvar_method(('ctxvar', key, ty), 'get', n)          # materialise the variables not read so far
+    return V(PY, py=('ctxcopy', dict(ex.st.ctx)))
+
+
 def create_task(ex, n, awaited, recv=None):
+    """A2: the coroutine will run once, later, as its own task, in a copy of the creator's context (or in the given context)."""
     coro = ex.eval(n.args[0])
     if coro.ty.kind != 'py' or coro.py[0] != 'coro':
         raise Unsupported('create_task of %r' % (coro,))
-    return make_task(ex, coro)
+    ctx = None
+    for k in n.keywords:
+        if k.arg == 'context':
+            c = ex.eval(k.value)
+            if c.ty.kind != 'py' or c.py[0] != 'ctxcopy':
+                raise Unsupported('create_task(context=%s)' % ast.unparse(k.value))
+            ctx = c.py[1]
+        elif k.arg == 'name':
+            pass                                                   # X1: task names are labels only
+        else:
+            raise Unsupported('create_task(%s=...)' % k.arg)
+    t = make_task(ex, coro)
+    key = coro.py[1]
+    if key in ex.spec.functions:
+        # a coroutine of a function under contract: its pre-condition must hold in the context the task will run in; what the
+        # task does is seen by its creator only as interference at the creator's suspension points
+        C = ex.spec.functions[key]
+        saved = ex.st.ctx
+        if ctx is not None:
+            ex.st.ctx = dict(ctx)
+        try:
+            env = dict(coro.py[2])
+            for cl in C.requires:
+                ex.oblige('callsite:create_task(%s)/requires' % C.key, cl.label, ex.spec_bool(cl.expr, env, entry=ex.st.snapshot()), cl.tags,
+                          meta={'callee': C.key})
+        finally:
+            ex.st.ctx = saved
+        if key not in getattr(ex.C, 'spawns', ()):
+            raise Unsupported('create_task(%s): not declared in spawns= of %s' % (key, ex.C.key))
+        if 'spawned_tasks' in ex.spec.ghosts and 'spawned_tasks' in ex.C.ghost_modifies:      # tracked only where the contract speaks about it
+            ex.ghost_set('spawned_tasks', ex.list_append(ex.ghost('spawned_tasks'), V(t.ty, t.term)))
+    return t
+
+
+def _spawned_outcomes(ex):
+    """Ways a task spawned by this activation may end exceptionally, from the contracts of the spawned coroutines: one fork for all
+    declared Exception subclasses, one per CancelledError clause that is not a delivered cancellation (A2b: a handler task is
+    cancelled only through its awaiter - that case is the cancellation fork of the awaiter's own suspension point)."""
+    keys = getattr(ex.C, 'spawns', ())
+    if not keys:
+        raise Unsupported('await of an opaque task')
+    out = []
+    for key in keys:
+        for rc in ex.spec.functions[key].raises:
+            for c in ((rc.cls,) if isinstance(rc.cls, str) else tuple(rc.cls)):
+                if c == 'CancelledError':
+                    if not getattr(rc, 'delivered', True):
+                        out.append(('CancelledError', 'task:%s/%s' % (key, rc.label), True))
+                elif not any(o[0] == 'Exception' for o in out):
+                    out.append(('Exception', 'task:%s/exception' % key, False))
+    return out
+
+
+def _raise_from_spawned(ex, outcome, where):
+    cls, origin, exact = outcome
+    raise RaiseSig(ex.fresh_exc(cls, base='task_exc', exact=exact), where + ' ' + origin)
+
+
+def opaque_task_await(ex, task: V):
+    """A2: `await t` of a task spawned by this activation resumes only once t is done (or the awaiter is cancelled - the fork made by
+    suspend); it returns t's result or raises what t's coroutine ended with. A CancelledError that ends t is not a cancellation of
+    the awaiter."""
+    outs = _spawned_outcomes(ex)
+    ex.suspend('await task')
+    ex.assume(ex.read_field(task.term, 'task_done').term)
+    which = ex.choice([None] * (1 + len(outs)), 'await task: outcome')
+    if which == 0:
+        r = fresh(ANY, 'task_result')
+        ex.assume_type(r)
+        return r
+    _raise_from_spawned(ex, outs[which - 1], 'await task')
+
+
+def gather(ex, n, awaited, recv=None):
+    """A3': asyncio.gather(*ts): resumes when every t is done - or, without return_exceptions=True, as soon as one of them has ended
+    with an exception (the others keep running and are NOT cancelled), raising that exception."""
+    if not awaited:
+        raise Unsupported('asyncio.gather not awaited')
+    if len(n.args) != 1 or not isinstance(n.args[0], ast.Starred):
+        raise Unsupported('asyncio.gather: only gather(*iterable) is modelled')
+    ret_exc = False
+    for k in n.keywords:
+        if k.arg == 'return_exceptions' and isinstance(k.value, ast.Constant):
+            ret_exc = bool(k.value.value)
+        else:
+            raise Unsupported('asyncio.gather(%s=...)' % k.arg)
+    it = n.args[0].value
+    if isinstance(it, ast.GeneratorExp):
+        it = ast.copy_location(ast.ListComp(elt=it.elt, generators=it.generators), it)
+    src = ex.as_list(ex.refresh(ex.eval(it)))
+    if not (src.ty.args and src.ty.args[0].kind == 'obj' and src.ty.args[0].cls == 'Task'):
+        raise Unsupported('asyncio.gather over %r' % (src.ty,))
+    outs = _spawned_outcomes(ex)
+    ex.suspend('asyncio.gather')
+    nlen = ex.list_len(src)
+    j = z3.Int(fresh_name('gj'))
+    done_at = lambda i: ex.read_field(ex.list_at(src, i).term, 'task_done').term
+    nopts = 1 if ret_exc else 1 + len(outs)
+    which = ex.choice([None] * nopts, 'gather: outcome') if nopts > 1 else 0
+    if which == 0:
+        ex.assume(z3.ForAll([j], z3.Implies(z3.And(0 <= j, j < nlen), done_at(j))))
+        r = fresh(Ty('list', (ANY,)), 'gathered')
+        ex.assume_type(r)
+        return r
+    w = z3.Int(fresh_name('gw'))
+    ex.assume(z3.And(0 <= w, w < nlen, done_at(w)))
+    _raise_from_spawned(ex, outs[which - 1], 'asyncio.gather')
 
 
 def task_info(v: V):
@@ -201,6 +315,8 @@ def install(spec: Spec):
     b['AsyncEvent.__new__'] = event_new
     b['asyncio.get_running_loop'] = get_running_loop
     b['asyncio.create_task'] = create_task
+    b['asyncio.gather'] = gather
+    b['contextvars.copy_context'] = copy_context
     b['Queue.put_nowait'] = base_put_nowait
     b['Queue.get_nowait'] = base_get_nowait
     b['Queue.join#await'] = queue_join_await
@@ -308,7 +424,7 @@ def asyncio_wait(ex, n, awaited, recv=None):
 def task_await(ex, task: V):
     info = task_info(task)
     if info is None:
-        raise Unsupported('await of an opaque task')
+        return opaque_task_await(ex, task)
     if info['state'] == 'done':
         if info['exc'] is not None:
             raise RaiseSig(info['exc'], 'task exception')
